@@ -9,6 +9,7 @@ package tlx
 //	(tl.u pkg Type x<bytes>)           -> 'err | (decoded-value n<unread>)
 //	(tl.req pkg Method value|'none x<response>)
 //	                                   -> 'err | (x<payload> ('result v)|('lserror v)|'err server-side-decoder-agrees)
+//	(gen tl|tlb pkg x<schema text>)    -> 'err | x<generator output>   the schema compilers once more, in this process
 //	(tlb.d pkg Type)                   -> ('opaque x<why>) | (descriptor x<coq term>)
 //	(tlb.r pkg Type n<seed> n<count>)  -> (value ...)       random in-domain values (tlbdesc.Rand)
 //	(tlb.e pkg Type value)             -> 'err | (cell decoded-value|'decode-err)
@@ -182,6 +183,21 @@ func DriverMain(tls map[string]TlPkg, tlbs map[string]map[string]reflect.Type) {
 				op, pkg, name, args := in.Head(), in.List[1].Atom, in.List[2].Atom, in.List[3:]
 				out = safe(func() sx.V {
 					switch op {
+					case "gen":
+						if len(args) != 1 || args[0].K != sx.KBytes {
+							return herr("gen arguments")
+						}
+						var code string
+						var gerr error
+						if pkg == "tlb" {
+							code, gerr = GenTlb(string(args[0].Bytes))
+						} else {
+							code, gerr = GenTl(string(args[0].Bytes))
+						}
+						if gerr != nil {
+							return sx.A("err")
+						}
+						return sx.Str(code)
 					case "tl.m", "tl.u", "tl.req":
 						pk, ok := tls[pkg]
 						if !ok {
